@@ -2,6 +2,10 @@
 """developer tool: print the markdown table of seeded changes (seeded/*/meta.json) for DESIGN.md"""
 import json, os, re
 root = os.path.join(os.path.dirname(os.path.dirname(os.path.abspath(__file__))), "seeded")
+print("""# Seeded changes
+
+Each directory holds a change to ideoforms/isobar (patch.diff) written by a fresh engineer who saw only the text of one property and a scratch worktree of /repo (nothing from /verif), a demonstration (demo.py: exits 0 on the unchanged tree, 1 with the change), the engineer's notes, and meta.json with what was run (harness/seeded_run.py: demo on the clean tree, patch applied, repository test-suite, demo again, ./check <property> --tier quick, repository restored). a,b = first request; c,d = second request, told which two mechanisms were already collected; e,f = third and g,h = fourth request, told one line about each change already collected. No change is ever committed to /repo.  Regenerate with `harness/seeded_table.py > seeded/README.md`.
+""")
 print("| id | property | change (file: first changed line) | needs, to manifest | tests with change | check | how it was reported |")
 print("|---|---|---|---|---|---|---|")
 for name in sorted(os.listdir(root)):
@@ -14,6 +18,8 @@ for name in sorted(os.listdir(root)):
     ran = m.get("ran", {})
     kinds = []
     for v in ran.get("violation_kinds", []):
+        if isinstance(v, str):
+            v = {"signature": {"kind": v}}
         k = (v.get("signature") or {}).get("kind", "?")
         if not v.get("failing_input_found", True):
             k += " (no-failing-input-found)"
